@@ -160,7 +160,15 @@ fn child_typed<T: serde::Serialize + serde::de::DeserializeOwned + Send>(c: &C, 
         if fail == 2 && calls.fetch_add(1, std::sync::atomic::Ordering::SeqCst) == fail_at { panic!("comparator panics"); }
         key(a).cmp(&key(b))
     };
-    let res = std::panic::catch_unwind(std::panic::AssertUnwindSafe(|| sorter.sort_by(input, &cmp)));
+    // order 2: the sorter is owned by the code that panics (a local of the closure), so it is dropped WHILE the thread is
+    // unwinding — `let s = build()?; s.sort_by(..)` inside a function whose caller catches the panic
+    let mut sorter = Some(sorter);
+    let res = if c.order == 2 {
+        std::panic::catch_unwind(std::panic::AssertUnwindSafe(|| { let s = sorter.take().unwrap(); let r = s.sort_by(input, &cmp); sorter = Some(s); r }))
+    } else {
+        std::panic::catch_unwind(std::panic::AssertUnwindSafe(|| sorter.as_ref().unwrap().sort_by(input, &cmp)))
+    };
+    let sorter = sorter;
     if c.fail == 3 { unsafe { let mut r = libc::rlimit { rlim_cur: 0, rlim_max: 0 }; libc::getrlimit(libc::RLIMIT_NOFILE, &mut r); r.rlim_cur = r.rlim_max.min(4096); libc::setrlimit(libc::RLIMIT_NOFILE, &r); } }
     let mut yielded = 0usize;
     let result = match res {
@@ -232,7 +240,7 @@ fn gen(rng: &mut Rng, tier: Tier) -> Vec<Case> {
         let obs_at = (c_size * rng.range(1, 2) as usize).min(n - 1);
         let fail_at = match fail { 1 => rng.range(obs_at as u64 + 1, n as u64 + 3) as usize, 2 => rng.below(3 * n as u64) as usize, 3 => obs_at, _ => 0 };
         let c = C { tmp: rng.below(2), n, c: c_size, comp: if rng.chance(1, 3) { Some(*rng.pick(&[0u32, 1, 9])) } else { None }, fail, fail_at,
-            consume: match rng.below(4) { 0 => 0, 1 => n + 5, _ => rng.below(n as u64) as usize }, order: rng.below(2), obs_at, border: rng.below(24), heavy: 0 };
+            consume: match rng.below(4) { 0 => 0, 1 => n + 5, _ => rng.below(n as u64) as usize }, order: if fail == 1 || fail == 2 { rng.below(3) } else { rng.below(2) }, obs_at, border: rng.below(24), heavy: 0 };
         if valid(&c) { out.push(Case::new("lifetime", enc(&c))); }
     }
     // records that own heap data: runs of 1-12 MiB on disk (a threshold on the in-memory or on-disk size of a
